@@ -279,7 +279,15 @@ func newModel(c *Case) (m *model, skip string) {
 		p, ex := computePrims(m, rd)
 		if mask == 0 {
 			m.p, m.exclOnly = p, ex
-		} else if p != m.p {
+		} else if p == m.p {
+			// same verdict under this reading; remember if it attributes a refusal to an exclusive label
+			// (only used to name the violation key)
+			for k := 0; k < m.k; k++ {
+				for j := 0; j < m.n; j++ {
+					m.exclOnly[k][j] = m.exclOnly[k][j] || ex[k][j]
+				}
+			}
+		} else {
 			switch {
 			case caseHaz && emptyHaz:
 				return nil, "letter-case+empty-label-value"
